@@ -294,6 +294,7 @@ class World(WorldBase):
             "w_hoomd": rng.choice([0, 1, 2]),
             "w_log": rng.choice([0, 1, 3]),
             "sweep": 12 if os.environ.get("VERIF_TIER", "quick") == "quick" else 0,   # 0 = every byte
+            "p_nest": rng.choice([0.0, 0.1, 0.25]),
             "faults": [],
         }
         if batch == "fault":
@@ -331,6 +332,13 @@ class World(WorldBase):
         op = getattr(self, "gen_" + kind)(rng)
         if op is None:
             return self.gen_append(rng)
+        readers = ("read_dump", "read_vector", "read_center", "read_additions", "read_log", "hoomd_read")
+        if op["op"] in readers and "fault" not in op and self.dumps and rng.random() < sw.get("p_nest", 0.0):
+            # another client's whole read runs while this one is inside an I/O call
+            inner = getattr(self, "gen_" + rng.choice(["read_dump", "read_vector", "read_center", "read_additions"]))(rng)
+            if inner is not None and inner["op"] in readers and inner.get("via") != "keep":
+                op["nest"] = {"at": rng.randint(1, 60), "op": inner}
+                return op
         if sw["faults"] and op["op"] in ("read_dump", "read_vector", "read_center", "read_additions", "read_log", "reread", "hoomd_read") \
                 and rng.random() < sw["p_fault"]:
             k = rng.choice(sw["faults"])
@@ -614,12 +622,16 @@ class World(WorldBase):
             clock = VirtualClock(op["clock"])
             saved = dr.time
             dr.time = clock
+        plan = op.get("fault")
+        if plan is None and op.get("nest"):
+            plan = self.nest_plan(op["nest"])
         try:
-            res, exc, (nev, dig, fired) = self.call(fn, op.get("fault"))
+            res, exc, (nev, dig, fired) = self.call(fn, plan)
         finally:
             if clock is not None:
                 dr.time = saved
                 self.ctx.faults_fired["clock_jump"] = self.ctx.faults_fired.get("clock_jump", 0) + 1
+        self.raise_nested()
         if exc is not None:
             self.drop_last()
             if fired and fired[0] in ("oserror_read", "interrupt"):
